@@ -176,6 +176,21 @@ def body_hit(case):
     check(np.all(np.abs(worst) <= 1e-9 * span), "hit:not-on-boundary", f"alpha*b is at signed facet distance {worst.tolist()} from the boundary (should be 0)",
           observed=dict(alpha=alpha.tolist()))
     check(np.all(np.abs(H - alpha[:, None] * B) <= 1e-12 * (np.abs(H) + 1e-300) + 1e-300), "hit:B_with_P", "B_with_P != alpha * B")
+    # "the array of vectors" may be one vector or carry leading batch axes (the code reduces over the last, facet, axis and
+    # multiplies through `[..., None]`): every form gives the numbers of the (n, d) call (added after seeded change S-C17-11)
+    with calling("alpha_for_B_with_P / B_with_P (single vector, stacked vectors)"):
+        with np.errstate(all="ignore"):
+            a_one = np.asarray(dreye.alpha_for_B_with_P(B[0], eq))
+            H_one = np.asarray(dreye.B_with_P(B[0], eq))
+            Bst = np.stack([B, B[::-1]])
+            a_st = np.asarray(dreye.alpha_for_B_with_P(Bst, eq))
+            H_st = np.asarray(dreye.B_with_P(Bst, eq))
+    check(a_one.shape == () and H_one.shape == B[0].shape, "hit:shape", f"single vector: {a_one.shape} {H_one.shape}")
+    close = lambda u, v: bool(np.all(np.abs(np.asarray(u) - np.asarray(v)) <= 1e-12 * np.abs(np.asarray(v))))   # gemv / gemm differ by ulps
+    check(close(a_one, alpha[0]) and close(H_one, H[0]), "hit:single-vector", f"alpha of one vector {a_one!r} != its value inside the array {alpha[0]!r}")
+    check(a_st.shape == Bst.shape[:-1] and H_st.shape == Bst.shape, "hit:shape", f"stacked vectors {Bst.shape}: {a_st.shape} {H_st.shape}")
+    check(close(a_st[0], alpha) and close(a_st[1], alpha[::-1]) and close(H_st[0], H), "hit:stacked-vectors",
+          f"alpha of stacked vectors {a_st.tolist()} != alpha per vector {alpha.tolist()}")
     # independent: LP  max t  s.t.  t*b in hull(P)
     if bscale != 1.0:
         with calling("alpha_for_B_with_P / B_with_P (rescaled vectors)"):
